@@ -634,3 +634,41 @@ def replay(ctx, path):
         return 1
     print("replay: program passes on the current tree")
     return 0
+
+
+def selftest(ctx):
+    """Binding self-test: (a) on a small exhaustive plan the harness must flag exactly the programs whose expected
+    value was perturbed; (b) the register model without deviation agrees with TLC; (c) with the [arith] deviation it
+    reproduces the real compiler's register for `a8 + b8 < i8(0)` at (127, 1)."""
+    r = generate(ctx, "st", dict(types=["i8"], ops=["+", "<"], unary=("neg",), nodes=5, stack=2, lits=(2,), litmax=False), None, 2)
+    progs = sorted(r.hists(), key=lambda x: x["src"])
+    for i, p in enumerate(progs):
+        p["id"], p["kind"] = i, "sem"
+        p.pop("bad", None)
+    n = cross_check(progs)
+    flipped = set()
+    for p in progs[::7]:
+        for k, o in enumerate(p["o"]):
+            if o == "v":
+                p["v"][k] += 1
+                flipped.add(p["id"])
+                break
+    summ, rows, _ = run_harness(ctx, progs, "selftest", workers=2)
+    flagged = {x["id"] for x in rows if x["r"] == "mismatch"}
+    genuine = {x["id"] for x in rows if x["r"] == "mismatch" and x["id"] not in flipped}
+    for x in rows:
+        if x["id"] in genuine:
+            p = progs[x["id"]]
+            if explain(p, x.get("args", []), x["got_o"], int(x["raw"]) if x.get("raw") else None) is None:
+                print("selftest: unexplained genuine mismatch on %s" % p["src"])
+                return 1
+    demo = {"pn": ["a8", "b8"], "pt": ["i8", "i8"], "body": [{"k": "ret", "e": {
+        "k": "bin", "op": "<", "t": "u8",
+        "l": {"k": "bin", "op": "+", "t": "i8", "l": {"k": "par", "t": "i8", "n": "a8"}, "r": {"k": "par", "t": "i8", "n": "b8"}},
+        "r": {"k": "lit", "t": "i8", "v": 0}}}]}
+    ok = flipped <= flagged and model(demo, [127, 1]) == ("v", 1) and model(demo, [127, 1], frozenset(["arith"])) == ("v", 0)
+    print("selftest: %d programs, %d cases cross-checked, %d perturbed -> %d flagged (all perturbed flagged: %s), "
+          "model spec/as-written on a8+b8<0 at (127,1): %s/%s" % (
+              len(progs), n, len(flipped), len(flagged & flipped), flipped <= flagged,
+              model(demo, [127, 1]), model(demo, [127, 1], frozenset(["arith"]))))
+    return 0 if ok else 1
